@@ -155,8 +155,19 @@ func genBodiesTelnet() string {
 		wrap = "  (handleControlCharResponse s.data s.replies s.ctrl c).map fun (ctrl, err, data, replies) =>\n" +
 			"    (({ ctrl := ctrl, data := data, replies := replies } : Telnet.St), err)\n"
 	}
+	// Telnet.Read(n): `t.c.Read(b)` is abstracted to its two results (`sockN` bytes were read into the
+	// scratch buffer, error `sockErr`); WHICH bytes the socket put into `b` is not modelled, so in the
+	// socket branch only the length of the result is meaningful.
+	read := &facts.FnSpec{Dir: "transport", Recv: "Telnet", Name: "Read", Lean: "telnetRead",
+		Doc: "State: `data` = `t.initialBuf`. `sockN`, `sockErr` = what `t.c.Read(b)` returns (the bytes it " +
+			"stores into `b` are not modelled: the scratch buffer stays zero filled).",
+		Binders: "(sockN : Int) (sockErr : Go.Error)", BinderArgs: "sockN sockErr",
+		State:   []facts.StateVar{{Key: "recv.initialBuf", Lean: "data", Ty: "bytes"}},
+		Funcs: map[string]facts.LibFn{
+			"recv.c.Read": {Args: []string{"bytes"}, Ret: []string{"int", "error"}, Tmpl: "(sockN, sockErr)"},
+		}}
 	bf := &facts.BodyFile{GeneratedBy: "gen_c15.go", Imports: []string{"ScrapliModel.Telnet"},
-		Namespace: "Scrapli.Gen.Bodies.Telnet", Fns: []*facts.FnSpec{spec}}
+		Namespace: "Scrapli.Gen.Bodies.Telnet", Fns: []*facts.FnSpec{spec, read}}
 	out := facts.GenBodies(bf)
 	end := "\nend Scrapli.Gen.Bodies.Telnet\n"
 	extra := "\n/-- where the source keeps the parser's partial-sequence buffer: `param` = parameter/result of\n" +
